@@ -177,6 +177,10 @@ class Sim(object):
                 t.state = 'done'
             except _Frozen:
                 return
+            except BaseException:
+                if getattr(t, 'dead', False):
+                    return
+                raise
             except BaseException as e:  # noqa
                 t.exc = e
                 t.state = 'error'
@@ -249,9 +253,23 @@ class Sim(object):
         task.state = 'crashed'
         if not task.threaded:
             raise HarnessError('crash fault on an inline task')
+        task.reap = threading.Semaphore(0)
         self.ctl.release()
-        # never released: no finally block of the request ever runs
-        threading.Semaphore(0).acquire()
+        # Frozen: no finally block of the request runs while the run is
+        # judged.  Only after the verdict (and right before the database is
+        # restored) is the thread reaped, see reap().
+        task.reap.acquire()
+        raise _Frozen()
+
+    def reap(self, task):
+        """Dispose of a frozen thread after the verdict.  Its connections
+        are closed, so the unwinding cannot touch the database; the caller
+        restores the snapshot right afterwards anyway."""
+        if task.state != 'crashed' or task.thread is None:
+            return
+        task.dead = True
+        task.reap.release()
+        task.thread.join(10)
 
     # -- faults ------------------------------------------------------------
     def _count(self, task, kind, ordinal):
@@ -280,6 +298,8 @@ class Sim(object):
             task.pending_winners = []
 
     def on_statement(self, task, cursor, statement, parameters, many):
+        if getattr(task, 'dead', False):
+            raise _Frozen()
         verb, table = classify(statement)
         if verb == 'BEGIN':
             top = not task.in_txn()
@@ -438,6 +458,8 @@ def install(world):
     def _checkout(dbapi_conn, rec, proxy):
         sim, task = current()
         if task is not None:
+            if getattr(task, 'dead', False):
+                raise _Frozen()
             task.conns.append(dbapi_conn)
 
     @event.listens_for(engine, 'checkin')
